@@ -155,6 +155,23 @@ func c05SortedSet(vs []int, lo, hi int) []int {
 	return out
 }
 
+// c05Report records a violation, at most c05MaxPerKind per (part, clause kind) and shard: cases are
+// enumerated simplest first, so the first ones are the minimal cases; the enumeration itself goes on
+// (other clause kinds are still reported, every violating case is counted).
+const c05MaxPerKind = 2
+
+var c05Reported = map[string]int{}
+
+func c05Report(sh *evidence.Shard, p *evidence.Part, kind, signature, detail string, replay any) {
+	k := p.Name + "/" + kind
+	c05Reported[k]++
+	p.Count("violating_cases", 1)
+	if c05Reported[k] > c05MaxPerKind {
+		return
+	}
+	sh.Violate(p.Name, signature, detail, replay)
+}
+
 func c05Generic(clause string) string {
 	var b strings.Builder
 	prevDigit := false
@@ -422,7 +439,7 @@ func c05Sizes(sh *evidence.Shard) {
 							p.Sample(c)
 						}
 						if clause != "" {
-							sh.Violate(p.Name, c05Sig(p.Name, c, clause), clause, c)
+							c05Report(sh, p, c05Generic(clause), c05Sig(p.Name, c, clause), clause, c)
 						}
 					}
 				}
@@ -486,7 +503,7 @@ func c05Permutations(sh *evidence.Shard) {
 		}
 		p.Evaluations++
 		if clause != "" {
-			sh.Violate(p.Name, c05Sig(p.Name, &base, clause), clause, &base)
+			c05Report(sh, p, c05Generic(clause), c05Sig(p.Name, &base, clause), clause, &base)
 			continue
 		}
 		n := s.n
@@ -503,7 +520,7 @@ func c05Permutations(sh *evidence.Shard) {
 			if cl != "" {
 				c := base
 				c.Order, c.Lossy = append([]int{}, order...), lossy
-				sh.Violate(p.Name, c05Sig(p.Name, &c, cl), cl, &c)
+				c05Report(sh, p, c05Generic(cl), c05Sig(p.Name, &c, cl), cl, &c)
 				failed = true
 				return false
 			}
